@@ -36,6 +36,8 @@ func loadReplayIndex(verif string) []ReplayTmpl {
 }
 
 func tryReplay(w *World, prop string, o *Oblig, repo, verif string) *ReplayResult {
+	var last *ReplayResult
+	tried := 0
 	for _, t := range loadReplayIndex(verif) {
 		re, err := regexp.Compile(t.Match)
 		if err != nil || !re.MatchString(o.Name) {
@@ -44,9 +46,15 @@ func tryReplay(w *World, prop string, o *Oblig, repo, verif string) *ReplayResul
 		if len(t.Props) > 0 && !hasProp(t.Props, prop) {
 			continue
 		}
-		return runReplay(t, o, repo, verif)
+		// every oracle registered for the obligation is tried (at most four) until one reproduces
+		rr := runReplay(t, o, repo, verif)
+		if rr.Reproduced || tried >= 3 {
+			return rr
+		}
+		last = rr
+		tried++
 	}
-	return nil
+	return last
 }
 
 func runReplay(t ReplayTmpl, o *Oblig, repo, verif string) *ReplayResult {
